@@ -162,6 +162,24 @@ def run(tier):
                 rep.inconclusive(key, "R07.dual", "no compatible path pair")
             else:
                 rep.violated(key, "R07.dual", "a != b is not the negation of a == b for %s: both give %s under one truth assignment of the atoms" % (tag, cex[1][0]), counterexample(cex))
+        if level == "container":
+            # R07.deep: a == b is true only on paths on which the element sequences were compared and found equal (or the two operands are one object):
+            # base pointer, strides and extents do not identify the elements of a view
+            key = "R07.deep(%s)" % tag
+            shallow = []
+            for asg, res in trees[fn]:
+                if not res:
+                    continue
+                deep = any(v and isinstance(a, tuple) and a[0] == "equal-elements" for a, v in asg.items())
+                ident = any(v and isinstance(a, tuple) and a[0] == "cmp" and a[1] == "eq" and {repr(a[2]), repr(a[3])} == {"('param', 0)", "('param', 1)"} for a, v in asg.items())
+                if not deep and not ident:
+                    shallow.append(sorted(formula.show_atom(a, 70) for a, v in asg.items() if v))
+            nrel += 1
+            if shallow:
+                rep.violated(key, "R07.deep", "a == b (%s) yields true on a path that does not compare the elements (conditions on that path: %s)" % (tag, shallow[0][:4]),
+                             dict(paths=shallow[:3]))
+            else:
+                rep.ok(key, "R07.deep", None)
         if level != "container" or cn == "elements":
             continue
         # R07.ext : the extents atom must cover all dimensions
